@@ -112,9 +112,11 @@ def schemaOf (sc : SCfg) : Ty → Nat → List String → Schema
   | .struct name _ lay fs, v, ctx =>
     .struct (strBytes name) (some lay.size) (some lay.align) (schemaOfFields sc fs v ctx true)
   | .enum name repr lay vs, v, ctx =>
-    .enum (strBytes name) (schemaOfVariants sc vs v ctx repr.explicitSize.isSome 0)
+    -- explicit discriminant values are not recorded (the schema holds the variant index): such an enum claims
+    -- no memory layout — no offsets, not `has_explicit_repr`
+    .enum (strBytes name) (schemaOfVariants sc vs v ctx (repr.explicitSize.isSome && !anyExplicitDiscr vs) 0)
       (tagWidth repr vs.length)
-      (match repr with | .c | .cInt _ => true | _ => false)   -- `has_explicit_repr` is set from `repr(C)` (finding D15)
+      ((match repr with | .c | .cInt _ => true | _ => false) && !anyExplicitDiscr vs)
       (some lay.size) (some lay.align)
   | .ip, _, _ => .enum (strBytes "IpAddr") ipSchemaVariants 1 false none none
   | .sock, _, _ => .enum (strBytes "SocketAddr") ipSchemaVariants 1 false none none   -- port etc. missing (finding D16)
